@@ -133,6 +133,8 @@ pub fn alphabet(table: &Table, f: &FieldDef, budget: usize) -> Vec<Val> {
                 out.push(Val::Text(word(n)));
             }
             out.push(Val::Text("GER-APP-v2.0.9;cS02 \u{e4}\u{20ac}\u{1f980}".into()));
+            out.push(Val::Text("\u{e4}\u{f6}".into()));
+            out.push(Val::Text("Ger\u{e4}t \u{20ac}".into()));
             out
         }
         Enc::HexS => {
